@@ -28,7 +28,7 @@ META = {
         rule=("Random histories (12-40 callbacks of random sizes 1..3*ibs+5, internal buffer 1..333, 4 sample rates): add top-level and nested tracks (depth <= 4) with 0-2 affine probe effects, random send routes and volumes; play/stop probe sounds on any track or the main track; "
               "pause/resume tracks, set track/main volumes (instant tweens), drop tracks (with subtree) and send tracks. Every callback: each live, un-paused probe must be asked for exactly the callback's frames in slices <= ibs with dt == 1/sr (paused/removed ones for 0 frames); "
               "every output frame must equal the documented sum (sound -> effects in order -> x track volume -> parent and send routes -> send effects x send volume -> main effects x main volume) within 2e-5 x sum|contributions|, and exactly 0 when nothing is routed. "
-              "Callbacks in which a resume or volume change takes hold contain a one-chunk ramp and are not compared sample-exactly (counted separately). A case is distinct when (tree/send shape, ibs, sample rate, history length) is new and >= 1 frame was compared. Track volumes include -60 dB and below (a silent track still runs everything beneath it); send-route volumes change with tweens of 0..3 buffers, also on paused tracks."),
+              "Callbacks in which a resume or volume change takes hold contain a one-chunk ramp and are not compared sample-exactly (counted separately). A case is distinct when (tree/send shape, ibs, sample rate, history length) is new and >= 1 frame was compared. Track volumes include -60 dB and below (a silent track still runs everything beneath it); send-route volumes change with tweens of 0..3 buffers, also on paused tracks. A track's handle may be dropped alone (children kept): the track stays, and keeps sounding, until every track beneath it that the audio thread holds has lost its handle too."),
         domain="volumes -18..+3 dB, affine effects gain {1,0.5,-0.75,1.25,0.9} offset 0 or +-0.003, up to 3 sends; one pause-or-resume per track per callback interval (cross-kind ordering within an interval is C07's subject)",
         assumptions=["removal timing follows the rule stated in C08: next callback if already picked up, the one after otherwise", "built-in non-linear effects are covered by C13/C14"],
         quick=[rel(25)],
@@ -44,7 +44,7 @@ META = {
               "{resume_at(delayed 0), resume_at(clock that no longer exists), seek_to, seek_by, set_volume, set_playback_rate} x issue gap {0,1,3 callbacks}, every 5th on a finite sound. Random part: up to 40 commands with random fades/delays, fade-in, delayed start, finite sounds, streaming sounds. "
               "Monitor rules per callback: the reported state must be in the set the documented life cycle allows (fade-driven steps complete when their tween completes +-1 callback; clock-scheduled resumes leave WaitingToResume exactly in the buffer in which the observed clock reaches the time; a missing clock cancels to Stopped; Stopped absorbs); "
               "exact silence and frozen position across callbacks spent entirely in Paused/WaitingToResume/Stopped; exactly unity gain when steadily Playing, monotone gain inside fades, gain within [0, unity]; Stopped sounds unloaded at the next callback (num_sounds) and the slot reusable; finite sounds reach Stopped within a frame bound. "
-              "A case is distinct and non-trivial when its observed state trace is new and contains a transition. Additional cases: a streaming sound whose decoder delivers nothing still completes pause/resume/stop fades and is unloaded; after several playback-state commands in one interval the state only moves by fades completing."),
+              "A case is distinct and non-trivial when its observed state trace is new and contains a transition. Additional cases: a streaming sound whose decoder delivers nothing still completes pause/resume/stop fades and is unloaded; after several playback-state commands in one interval the state only moves by fades completing; a clock start time (own or resume_at) on a clock that is not running (never started, paused past the time, stopped) keeps the sound silent / WaitingToResume until the clock is started; a sound on a paused sub-track (or on a child of one) still acknowledges pause/resume/stop at the next callback and a Stopped one is still unloaded, with callbacks of 1-3 buffers."),
         exhaustive_quick=True,
         exhaustive_thorough=True,
         domain="at most one state command per callback interval (cross-kind ordering inside one interval is C07's subject); fades 0..6 chunks, delays 0..5 chunks",
@@ -81,7 +81,7 @@ META = {
               "(1e-9 for constant speed; for tweens the interval spanned by the speed at the chunk's boundaries, interpolated in the target's unit), paused clocks bit-identical, stopped clocks zero, ticking() correct. "
               "Monitor 2 (scheduling): a sound start, a volume tween start or a resume_at scheduled for a whole or fractional clock time; the event must begin exactly at the first frame of the internal buffer during which the clock (model: constant speed, start delay, pause window) reaches the time - never later, never while paused or short of it; a dropped clock cancels the waiting sound within 3 callbacks. "
               "Monitor 3 (handle reads): audio thread running callbacks vs a thread calling time() (and stop()), parked at the hooks between the two stores / two loads; all interleavings enumerated depth-first for (callbacks x reads) up to 2x2 (quick) / 3x3 (thorough) plus random schedules of 6x6; every read must equal a value published before or during it and reads must not go backwards while the clock runs. "
-              "A case is distinct when its history class / schedule trace is new. Also stop()+start() and pause()+start() within one interval, and a clock whose speed is mapped from a moving modulator (same-chunk value)."),
+              "A case is distinct when its history class / schedule trace is new. Also stop()+start() and pause()+start() within one interval, and a clock whose speed is mapped from a moving modulator (same-chunk value). Under Miri / TSan the depth-first enumeration is additionally bounded by the shard's time budget (what was not reached is reported as not enumerated)."),
         domain="speeds 0.5..3000 ticks/s; excluded while listed as known findings: tweens scheduled on the clock's own time (monitor 1); torn reads are counted and reported as the known finding, any other unexplained read is a violation",
         assumptions=["interleavings are enumerated at hook granularity (between the atomic operations of ClockShared); the operations themselves are atomic", "the other-clock start of a speed tween may be observed one chunk early or late depending on clock update order (modelled as an interval)"],
         quick=[rel(30)],
@@ -114,7 +114,7 @@ META = {
               "free-running stress with random spin delays (1.6M writes quick). Checker: every delivered value has a valid checksum and was written; sequence numbers strictly increase; a read returns the newest command completely written before it began (or one written during it), None only if nothing newer was completely written; the last command is delivered after the writer stops. "
               "Monitor B: for each of the 65 command kinds in the table (static 9, streaming 9 incl. the 3 decoder-side ones, sub/spatial track, send, main, listener 2, clock 3, LFO 5, tweener 1, filter 4, EQ 4, delay 2, distortion 3, reverb 4, compressor 6, volume/panning control) with three distinguishable settings: "
               "issued once -> the observable (output level L/R, position, state, clock time) equals that of a reference scene built with / commanded to that setting; for instantaneous kinds already within the very next callback, also when written before the resource's first callback; burst of two -> only the last; one-shot seeks applied once. "
-              "Pairs of kinds / resources issued in one interval do not interfere. Distinct cases: schedule traces, command kinds. Pair cases: start/pause/stop sequences on one clock (last wins, stop resets, exact time afterwards); commands written between play() and the first callback on main/sub/nested/spatial tracks; send-route volume in the first buffer; same-target tweener sets; same-interval sound state commands."),
+              "Pairs of kinds / resources issued in one interval do not interfere. Distinct cases: schedule traces, command kinds. Pair cases: start/pause/stop sequences on one clock (last wins, stop resets, exact time afterwards); commands written between play() and the first callback on main/sub/nested/spatial tracks; send-route volume in the first buffer; same-target tweener sets; same-interval sound state commands; pause/resume commands, one per interval, to a sound on a paused sub-track (acknowledged at once, the last one decides after the track resumes); a streaming sound's seek_by and seek_to written in one interval in either order (exactly one jump, to the seek_to target)."),
         domain="scheduler granularity = one CommandWriter::write / CommandReader::read; interleavings inside triple_buffer are sampled by stress/TSan/Miri, not enumerated",
         assumptions=["Monitor A exercises the same kira::command code every handle uses, with a probe payload", "decoder-side commands are observed after the 16384-frame ring of earlier-decoded audio has played out"],
         require_equal=[("B_command_kinds_covered", "B_command_kinds_in_table")],
@@ -162,7 +162,7 @@ META = {
               "Random part: scene in {main, sub-track, rejected by a full track, paused track, track dropped, manager dropped, handle dropped, stopped with fade, natural end} x pace {ahead, slow decode (300 us), stalled (gated through dec.step permits)} x fault x loop region x stop/drop moment. "
               "Oracles: after an error state()==Stopped within 2 callbacks, unloaded, silent, pop_error() == the first injected error; decoder Drop observed (thread ended) or else >= 300 further decode-loop iterations with nothing to do = violation, neither within 4 s = inconclusive; "
               "> 2000 loop re-runs after an error = busy spin; index-coded frames strictly consecutive (mod loop), across a gap of silence resume within one frame; no decoder destroyed inside a callback; no allocation in callbacks. "
-              "A case is distinct and counted when its fault was actually reached (the decoder counted the failing call) or it is a fault-free life-cycle case with a new (scene, pace, loop) combination. Streams longer than the 16384-frame ring; errors arriving while the sound itself is paused or waits for a clock; a decoder thread that neither ends nor polls while a reference thread completes 1500 sleeps of 1 ms is a violation."),
+              "A case is distinct and counted when its fault was actually reached (the decoder counted the failing call) or it is a fault-free life-cycle case with a new (scene, pace, loop) combination. Streams longer than the 16384-frame ring; errors arriving while the sound itself is paused or waits for a clock; a decoder thread that neither ends nor polls while a reference thread completes 1500 sleeps of 1 ms is a violation. stop() written after pause()/resume()/resume_at() in the same interval must still stop the sound (Stopped within 3 callbacks, thread ends)."),
         exhaustive_quick=True,
         exhaustive_thorough=True,
         domain="streams of 1..3000 frames (40000 for confirmations), packets 1..4096; excluded while listed as known findings: scene 'track dropped' (thread-end verdict) and multi-frame resume skips of starving paces (counted instead)",
@@ -208,7 +208,7 @@ META = {
         rule=("Random effect specifications over all 8 built-in effects (delay with 0-2 nested feedback effects), parameters drawn from documented ranges plus their edges (mix -0.5/0/1/1.5, resonance 0/1, cutoff 0/1 Hz/Nyquist/2xNyquist, Q 0/0.01/20, gain +-24 dB, -60/-80 dB, zero attack/release), "
               "8 sample rates 8k..192k, internal buffer sizes 1..1024, 8 signal classes (noise, impulses, step, DC, full-scale square, denormals, sine, burst then silence), random partitions into process calls. Each case checks one law on fresh instances built through the public EffectBuilder::build: "
               "dry identity (bit-exact), silence->silence (exact zeros), finite output, superposition+scaling for linear effects (tolerance = the instance's measured f32 rounding-noise floor; E(-2x) == -2E(x) exactly), partition independence (<= 1e-6). "
-              "A case is distinct and non-trivial when (effect kind, law, sample rate, signal class, coarse parameter cell) is new and the input is non-zero (except the silence law)."),
+              "A case is distinct and non-trivial when (effect kind, law, sample rate, signal class, coarse parameter cell) is new and the input is non-zero (except the silence law). One partition case in four runs on an instance that first lived at another device rate (init at R0, warm-up, on_change_sample_rate(R))."),
         domain="D0 U B of DESIGN.md 2.3; not generated because they diverge by construction: feedback-loop gain > 0 dB (delay feedback x nested effect gain bound), expander ratios < 0.25, expanders inside feedback loops",
         assumptions=["effects are driven as the mixer drives them: init(sr, ibs) once, then on_start_processing + process on slices <= ibs with MockInfoBuilder info",
                      "superposition tolerance is calibrated per instance from E(s*x)/s - E(x) (s = 1+2^-7+2^-13) with a 64x margin; gross non-homogeneity (> 5 %) is itself reported"],
@@ -224,7 +224,7 @@ META = {
         rule=("Random parameter cells x 8 sample rates. Filter: 3 sine probes vs analytic |H| of the bilinear (pre-warped) SVF, plus mapping-free checks at the requested hertz: LP/HP gains cross at the cutoff, notch nulls there, band-pass peaks there, LP DC gain and HP Nyquist gain 0 dB +-0.05. "
               "EQ: bell centre gain / low-shelf DC gain / high-shelf Nyquist gain == requested dB +-0.1 with the opposite band at 0 dB, 3 sine probes vs SvfLinearTrapOptimised2 response. Volume/panning/distortion: point-wise against the dB, equal-power and clip laws (4e-6). "
               "Delay: two impulses -> echoes at exact multiples of floor(delay*sr) frames scaled by (feedback x nested volume)^k and the sqrt mix law (1e-5). Reverb: sample-by-sample against an independent f64 Freeverb network (tunings x sr/44100, spread 23, 8 combs, 4 all-passes) and tail-energy decay for feedback < 1. "
-              "Compressor: below threshold unchanged, steady-state reduction (level-threshold)(1-1/ratio) dB +-0.1, attack/release reach 1-1/e within +-5 %. A case is distinct when its (effect, mode/kind, sample rate, coarse parameter cell) is new. Compressor attack/release shorter than a sample period against the one-pole model; a hard/soft clip in a delay's feedback loop (delay line -> effect -> feedback gain)."),
+              "Compressor: below threshold unchanged, steady-state reduction (level-threshold)(1-1/ratio) dB +-0.1, attack/release reach 1-1/e within +-5 %. A case is distinct when its (effect, mode/kind, sample rate, coarse parameter cell) is new. Compressor attack/release shorter than a sample period against the one-pole model; a hard/soft clip in a delay's feedback loop (delay line -> effect -> feedback gain). One compressor case in four at the far end of the ranges: thresholds down to -90 dB with ratios 8..200 (reductions of 60 dB and more) and make-up gains -70..+40 dB; test levels are plain 10^(dB/20)."),
         domain="cutoffs 40 Hz..0.45 sr, resonance 0..0.85, Q 0.3..8, gains +-24 dB, delays 1..3000 frames, feedback <= 0 dB, reverb feedback <= 0.98, compressor ratio 1..50, attack 2..100 ms, release 5..300 ms; measurement domains are narrower than C13's so that settling fits the run length",
         assumptions=["reference models were written from the cited sources (Simper/Cytomic SVF papers, Freeverb) and from kira's documentation, not from kira's code paths; the resonance->k mapping (k = 2 - 1.9 res) is taken from the cited baseplug example",
                      "sine gains are measured by quadrature over a whole number of periods after 12 time constants of settling"],
@@ -258,7 +258,7 @@ META = {
               "(A') for each of the 7 add-track paths, all interleavings (depth-first over the controlled scheduler, yield points game.add, hook track.add.loaded, audio.change, audio.cb) of one add call with 1 or 2 {rate change, callback} pairs on the renderer thread; same invariant. "
               "(B) random cells (rate R1 in 8 rates 8k..192k, optional change to R2 at a callback boundary 2..30 ms in, internal buffer 16..128, random callback sizes): a tone keeps its duration (+-5 sound frames + 4 device frames) and mean-crossing count (+-3); a sound scheduled at clock tick k starts at k/tps s (+- one internal chunk); a linear -40 dB volume tween of D s passes -20 dB at D/2 and ends at D (+- one chunk); "
               "a wet delay of T s on main/top/nested (plain, with-effect or 2 levels deep group parents)/send/spatial/nested-spatial tracks, for the orders add-callback-change, add-change-callback and change-add-callback, repeats a 2 ms burst at k*floor(T*R)/R s (+-3 frames, k <= 4); low/high/band-pass gain at the cutoff agrees (0.25 dB) between early/late windows, before/after a change and another device rate. "
-              "A case is distinct when its (history length, op set) / (race path, event order) / (measurement kind, R1, R2) is new. A probe effect inside a delay's feedback loop is part of the history alphabet; the reverb's first reflections arrive after 1116/44100 s (left) and 1139/44100 s (right) at every rate."),
+              "A case is distinct when its (history length, op set) / (race path, event order) / (measurement kind, R1, R2) is new. A probe effect inside a delay's feedback loop is part of the history alphabet; the reverb's first reflections arrive after 1116/44100 s (left) and 1139/44100 s (right) at every rate. The delay holding the probe has a line of 5 ms, 40 ms, 0 or 10 us (the same number of frames at both rates) and the probe may sit one delay deeper."),
         domain="rates 8000..192000 (8 values); tone frequencies <= min(sound rate, device rate)/10; delays 4..30 ms; filter cutoffs 200..1500 Hz, resonance <= 0.6; the rate change is applied between callbacks by the thread that owns the renderer (as the cpal backend does)",
         assumptions=["the rate-in-force invariant is judged on a harness Effect implementation; built-in effects are covered by the delay/filter measurements",
                      "reverb and compressor time constants are not measured here (C14 measures them per rate)"],
@@ -291,7 +291,7 @@ META = {
         rule=("(F) WAV files from the harness encoder (u8/i16/i24/i32/f32/f64, 1/2/3/6 channels, 9 rates incl. 1 and 12345 Hz, lengths 0/1/odd/1151..1154/up to 20000, plain or WAVE_FORMAT_EXTENSIBLE headers, fact/unknown/LIST chunks around the data, odd chunk sizes): from_cursor must give the encoded rate, frame count and every sample (exact for f32, f32-rounded for f64, <= 1 LSB for integers), mono in both channels, UnsupportedChannelConfiguration for > 2 channels; StreamingSoundData::num_frames must agree. "
               "(S) index-coded WAVs (3000..71500 frames, every frame unique and non-zero) streamed at rate 1 with slices, start positions, loop regions and up to 3 seek_to commands (incl. targets next to the decoder's current packet): the output must follow the loaded frames as described, every seek issued while the decoder thread lives must land on the frame a static sound lands on, the sound must end after the last frame of the file/slice and report no error; the shipped assets (ogg, wav) likewise, from 0 strictly. "
               "(X) truncation at a random byte, one flipped bit in the header region, or one byte set to 00/7F/80/FF anywhere, on files of 0..600 frames: from_cursor must return an error value or frames that are a prefix (same rate) of what the independent reader derives from the same bytes when the header is still self-consistent (otherwise counted as not judged); streaming the same bytes must be refused or end, playing only frames that loading gives; no panic on any thread, <= 5 s CPU. "
-              "A case is distinct when its (kind, format, channels, header variant, length class / slice, loop, seeks, start / asset) key is new. Seek targets include rewinds to 0, packet-aligned frames, the same target twice and relative seek_by (relative to the reported position, +-2 frames)."),
+              "A case is distinct when its (kind, format, channels, header variant, length class / slice, loop, seeks, start / asset) key is new. Seek targets include rewinds to 0, packet-aligned frames, the same target twice and relative seek_by (relative to the reported position, +-2 frames); in 30 % of the loop-free cases every seek_to is written together with a seek_by (before or after it, while the decoder thread is parked): the seek_to target is the one landing."),
         domain="PCM and IEEE-float WAV only for fidelity (no independent Vorbis/FLAC/MP3 decoder exists offline: compressed assets get the equality half only); seek targets at (k+0.25)/rate, inside the loop region when one is set, at least one callback apart; device rate = file rate, playback rate 1",
         assumptions=["the decoder is kept ahead of playback (the harness waits for two dec.wait hook hits, an end or an error before every callback); starvation is C10's subject",
                      "integer sample scaling conventions: (s-128)/128, s/2^15, s/2^23, s/2^31"],
